@@ -41,7 +41,8 @@ type Case struct {
 	FeeD     int64  `json:"feeD"`
 	BalD     int64  `json:"balD"`
 	Mult     int64  `json:"mult"`
-	Replayed bool   `json:"replayed"`
+	Rp       string `json:"rp"` // no | ok | failed
+	Fx       string `json:"fx"` // plain | extra | foreign
 }
 
 type Obs struct {
@@ -240,6 +241,18 @@ func main() {
 		}
 		memo := "m"
 		feeCoins := coins(fee)
+		switch c.Fx {
+		case "extra": // the stake-denomination part plus a coin of another denomination the signer holds
+			feeCoins = feeCoins.Add(sdk.NewCoins(sdk.NewCoin("zzz", sdk.NewInt(1))))
+		case "foreign": // nothing in the stake denomination at all
+			fee = 0
+			feeCoins = sdk.NewCoins(sdk.NewCoin("zzz", sdk.NewInt(5)))
+		}
+		{ // the signer holds the foreign coins it offers
+			acc := a.AK.GetAccount(ctx, signer)
+			_ = acc.SetCoins(acc.GetCoins().Add(sdk.NewCoins(sdk.NewCoin("zzz", sdk.NewInt(9)))))
+			a.AK.SetAccount(ctx, acc)
+		}
 		chain := a.Cfg.ChainID
 		if c.Mut == "chain" {
 			chain += "-other"
@@ -298,7 +311,7 @@ func main() {
 				tx.Msg = m
 			}
 		case "fee":
-			tx.Fee = coins(fee + 1)
+			tx.Fee = feeCoins.Add(coins(1))
 		case "memo":
 			tx.Memo = memo + "x"
 		case "entropy":
@@ -312,8 +325,11 @@ func main() {
 		if err != nil {
 			panic(err)
 		}
-		if c.Replayed {
+		switch c.Rp {
+		case "ok":
 			a.RPC.Add(tmtypes.Tx(bz).Hash())
+		case "failed":
+			a.RPC.AddCode(tmtypes.Tx(bz).Hash(), 101)
 		}
 		payer := tx.Msg.GetSigner()
 		before := a.Project()
@@ -322,7 +338,7 @@ func main() {
 		after := a.Project()
 		pa := a.AK.GetCoins(a.Ctx(), payer).AmountOf(sdk.DefaultStakeDenom).Int64()
 		fi := a.Cfg.N // index of the fee collector in Bal
-		o := Obs{Code: out.Code, Fee: tx.Fee.AmountOf(sdk.DefaultStakeDenom).Int64(), Required: required,
+		o := Obs{Code: out.Code, Fee: fee, Required: required,
 			SignerDelta: pa - pb, FeeDelta: after.Bal[fi] - before.Bal[fi]}
 		for i := range after.Bal {
 			if i != fi {
@@ -342,7 +358,7 @@ func main() {
 			o.Class = "rej_pre"
 		}
 		o.Accepted = o.Class != "rej_pre"
-		if c.Replayed && o.Accepted && !a.RPC.WasAsked(tmtypes.Tx(bz).Hash()) {
+		if c.Rp != "no" && o.Accepted && !a.RPC.WasAsked(tmtypes.Tx(bz).Hash()) {
 			fmt.Fprintln(os.Stderr, "harness failure: the tx-index lookup never reached the fake RPC server")
 			os.Exit(3)
 		}
